@@ -68,7 +68,7 @@ func Denitr(g *GlobalVarsMain, thetasatFromPorges bool) {
 		//Let MaxN2O = 0.63
 		MaxN2O := 0.63
 		//LET FO = 1 - 2.05 * Max(0,Thetarel-0.62)
-		FO := 1 - 2.05*math.Max(0, thetarel-0.62)
+		FO := math.Max(0, 1-2.05*math.Max(0, thetarel-0.62)) // the N2O share is not negative in a soil wetter than the formula's range
 		//Let DNO = (0.44 + 0.0015*3)/3
 		DNO := (0.44 + 0.0015*3) / 3
 		//Let FN = Min(DNO*nitratOb30*0.667,(0.44+0.0015 * 0.67*nitratOB30))
@@ -185,9 +185,9 @@ func Denitmo(g *GlobalVarsMain) {
 	}
 	//! new for N2O from denitrification ! acc. to Bessou et al. 2010
 	MaxN2O := 0.63
-	FO1 := 1 - 2.05*math.Max(0, thetarel1-0.62)
-	FO2 := 1 - 2.05*math.Max(0, thetarel2-0.62)
-	FO3 := 1 - 2.05*math.Max(0, thetarel3-0.62)
+	FO1 := math.Max(0, 1-2.05*math.Max(0, thetarel1-0.62))
+	FO2 := math.Max(0, 1-2.05*math.Max(0, thetarel2-0.62))
+	FO3 := math.Max(0, 1-2.05*math.Max(0, thetarel3-0.62))
 	DNO := (0.44 + 0.0015*3) / 3
 	FN1 := math.Min(DNO*nitratOb30*0.667, (0.44 + 0.0015*0.67*nitratOb30))
 	FN2 := math.Min(DNO*nitratOb60*0.667, (0.44 + 0.0015*0.67*nitratOb60))
